@@ -154,9 +154,11 @@ Proof.
   split; [reflexivity|]. split; [apply Z.eqb_eq; assumption|]. split; [reflexivity|].
   match goal with Hx : (if byte_at 9 p =? 6 then _ else _) = true |- _ => rename Hx into Ht end.
   split.
-  - intros E. rewrite E in Ht. cbn in Ht. apply andb_true_iff in Ht. destruct Ht as [Ht1 Ht2].
+  - intros E. rewrite E in Ht. change (6 =? 6) with true in Ht. cbv iota in Ht.
+    apply andb_true_iff in Ht. destruct Ht as [Ht1 Ht2].
     split; [exact Ht1|]. destruct (tcp_opts 41 _); [discriminate|reflexivity].
-  - intros E. rewrite E in Ht. cbn in Ht. exact Ht.
+  - intros E. rewrite E in Ht. change (1 =? 6) with false in Ht. change (1 =? 1) with true in Ht.
+    cbv iota in Ht. exact Ht.
 Qed.
 
 Lemma ip_next_unfrag p proto :
@@ -176,12 +178,25 @@ Proof.
   destruct (Z.ltb_spec (ip_total p) (Zlength p)); rewrite Zlength_drop; [rewrite Zlength_take|]; lia.
 Qed.
 
+Lemma loop_step_fwd has fuel t st d acc st1 next pl :
+  decode_layer t st d = DOk st1 next pl -> 0 < Zlength pl -> has next = true ->
+  decode_loop has (S fuel) t st d acc = decode_loop has fuel next st1 pl (acc ++ [t]).
+Proof.
+  intros H Hpl Hn. cbn [decode_loop]. rewrite H. destruct pl; [rewrite Zlength_nil in Hpl; lia|].
+  rewrite Hn. reflexivity.
+Qed.
+
+Lemma loop_last_fwd has fuel t st d acc st1 next pl :
+  decode_layer t st d = DOk st1 next pl -> has next = false ->
+  decode_loop has (S fuel) t st d acc = (st1, acc ++ [t], None).
+Proof. intros H Hn. cbn [decode_loop]. rewrite H. destruct pl; [reflexivity|]. rewrite Hn. reflexivity. Qed.
+
 (* the loop from the IPv4 layer on, on a well-formed packet carrying the scanned transport *)
 Lemma loop_ip_transport k st p acc fuel :
   wf_ip p = true ->
   (match k with KTcp _ _ => byte_at 9 p = 6 | KIcmp => byte_at 9 p = 1 | KArp => False end) ->
   exists st',
-    decode_loop (has_dec k) (S (S fuel)) LIPv4 st p acc = (st', acc ++ [LIPv4; transport k], None) /\
+    decode_loop (has_dec k) (S (S fuel)) LIPv4 st p acc = (st', (acc ++ [LIPv4]) ++ [transport k], None) /\
     s_ip st' = {| ip_src := take 4 (drop 12 p); ip_ttl := byte_at 8 p |} /\
     match k with
     | KTcp _ _ => s_tcp st' = {| tcp_sport := be16 (byte_at 0 (ip_body p)) (byte_at 1 (ip_body p));
@@ -192,30 +207,26 @@ Lemma loop_ip_transport k st p acc fuel :
 Proof.
   intros Hwf Hk. destruct (wf_ip_parts p Hwf) as [Hh [_ [Hu [Ht Hi]]]].
   destruct (ip_body_len p Hh) as [Hlen [Hb Hihl]].
-  cbn [decode_loop decode_layer]. rewrite (ip_fwd st p Hh).
+  pose proof (ip_fwd st p Hh) as Hip.
   destruct k as [pf af| |]; [| |contradiction].
-  - rewrite (ip_next_unfrag p 6 Hu Hk). cbn [Z.eqb Pos.eqb].
+  - rewrite (ip_next_unfrag p 6 Hu Hk) in Hip. change (6 =? 6) with true in Hip. cbv iota in Hip.
     destruct (Ht Hk) as [Hth Hto].
     assert (Hne : 0 < Zlength (ip_body p)).
     { unfold tcp_header in Hth. repeat (apply andb_true_iff in Hth; destruct Hth as [Hth ?]). apply Z.leb_le in Hth. lia. }
-    destruct (nonempty_of_len _ Hne) as [x [t Ex]]. rewrite Ex at 1. cbn [has_dec]. rewrite <- Ex.
-    rewrite (tcp_fwd _ _ Hth Hto).
-    eexists. split.
-    + destruct (drop _ (ip_body p)); cbn [has_dec]; rewrite <- app_assoc; reflexivity.
-    + split; reflexivity.
-  - rewrite (ip_next_unfrag p 1 Hu Hk). cbn [Z.eqb Pos.eqb].
-    pose proof (Hi Hk) as Hth.
+    rewrite (loop_step_fwd _ _ LIPv4 st p acc _ _ _ Hip Hne eq_refl).
+    rewrite (loop_last_fwd _ _ LTCP _ _ _ _ _ _ (tcp_fwd _ _ Hth Hto) eq_refl).
+    eexists. split; [reflexivity|]. split; reflexivity.
+  - rewrite (ip_next_unfrag p 1 Hu Hk) in Hip. change (1 =? 6) with false in Hip. change (1 =? 1) with true in Hip.
+    cbv iota in Hip. pose proof (Hi Hk) as Hth.
     assert (Hne : 0 < Zlength (ip_body p)) by (unfold icmp_header in Hth; apply Z.leb_le in Hth; lia).
-    destruct (nonempty_of_len _ Hne) as [x [t Ex]]. rewrite Ex at 1. cbn [has_dec]. rewrite <- Ex.
-    rewrite (icmp_fwd _ _ Hth).
-    eexists. split.
-    + destruct (drop 8 (ip_body p)); cbn [has_dec]; rewrite <- app_assoc; reflexivity.
-    + split; reflexivity.
+    rewrite (loop_step_fwd _ _ LIPv4 st p acc _ _ _ Hip Hne eq_refl).
+    rewrite (loop_last_fwd _ _ LICMP _ _ _ _ _ _ (icmp_fwd _ _ Hth) eq_refl).
+    eexists. split; [reflexivity|]. split; reflexivity.
 Qed.
 
-Lemma length_ge_2 (l : bytes) : 2 <= Zlength l -> exists n, length l = S (S n).
+Lemma length_ge_2 (l : bytes) : 2 <= Zlength l -> exists n, List.length l = S (S n).
 Proof.
-  rewrite Zlength_correct. destruct (length l) as [|[|n]]; [lia|lia|]. intros _. exists n. reflexivity.
+  rewrite Zlength_correct. destruct (List.length l) as [|[|n]]; [lia|lia|]. intros _. exists n. reflexivity.
 Qed.
 
 (* the outcome of processing a frame that has the header chain and well-formed options *)
@@ -231,11 +242,10 @@ Lemma process_complete_ip k raw st f :
   snd (process k raw (code_valid k) st f) = expected_outcome k raw f.
 Proof.
   intros Hk Hl Hwf. unfold process, decode_layers.
-  assert (Hk' : k <> KArp) by (destruct k; try discriminate; contradiction).
   destruct (wf_ip_parts _ Hwf) as [Hh _]. destruct (ip_body_len _ Hh) as [_ [Hb Hihl]].
   destruct raw.
   - (* raw IPv4 *)
-    assert (El : l3 k true f = f) by (destruct k; reflexivity). rewrite El in *.
+    assert (El : l3 k true f = f) by (destruct k; try reflexivity; contradiction). rewrite El in *.
     assert (Ef : first_layer k true = LIPv4) by (destruct k; try reflexivity; contradiction). rewrite Ef.
     destruct (length_ge_2 f ltac:(lia)) as [n En]. rewrite En.
     destruct (loop_ip_transport k st f [] (S n) Hwf Hk) as [st' [Hrun [Hip Htr]]].
@@ -243,23 +253,27 @@ Proof.
     assert (Hv : code_valid k [LIPv4; transport k] st' = true)
       by (apply code_valid_complete; destruct k; try reflexivity; contradiction).
     rewrite Hv. cbn [negb]. unfold expected_outcome, fields_of. rewrite El.
-    destruct k as [pf af| |]; [| |contradiction]; rewrite Hip, Htr; reflexivity.
+    destruct k as [pf af| |]; [| |contradiction]; rewrite Hip, Htr;
+      cbn [tcp_flags tcp_sport ip_src ip_ttl ic_type ic_code l3];
+      [destruct (negb (pf _)); reflexivity|reflexivity].
   - destruct Hl as [Hl|Hl]; [discriminate|].
-    assert (El : l3 k false f = drop 14 f) by (destruct k; reflexivity). rewrite El in *.
+    assert (El : l3 k false f = drop 14 f) by (destruct k; try reflexivity; contradiction). rewrite El in *.
     assert (Ef : first_layer k false = LEth) by (destruct k; reflexivity). rewrite Ef.
     assert (H14 : 14 <= Zlength f) by (unfold eth_header in Hl; apply andb_true_iff in Hl; destruct Hl as [Hl _]; apply Z.leb_le in Hl; exact Hl).
     assert (Hd : Zlength (drop 14 f) = Zlength f - 14) by (rewrite Zlength_drop; lia).
-    destruct (length_ge_2 f ltac:(lia)) as [n En]. rewrite En.
-    cbn [decode_loop decode_layer]. rewrite (eth_fwd st f 2048 Hl ltac:(lia)). cbn [eth_next Z.eqb Pos.eqb].
-    destruct (nonempty_of_len (drop 14 f) ltac:(lia)) as [x [t Ex]]. rewrite Ex at 1.
-    assert (Hhas : has_dec k LIPv4 = true) by (destruct k; try reflexivity; contradiction). rewrite Hhas. rewrite <- Ex.
-    destruct n as [|n]; [rewrite Zlength_correct, En in *; lia|].
-    destruct (loop_ip_transport k st (drop 14 f) ([] ++ [LEth]) n Hwf Hk) as [st' [Hrun [Hip Htr]]].
+    assert (Hlen3 : exists n, List.length f = S (S (S n))).
+    { rewrite Zlength_correct in H14. destruct (List.length f) as [|[|[|n]]]; try lia. exists n. reflexivity. }
+    destruct Hlen3 as [n En]. rewrite En.
+    assert (Hhas : has_dec k LIPv4 = true) by (destruct k; try reflexivity; contradiction).
+    rewrite (loop_step_fwd _ _ LEth st f [] st LIPv4 (drop 14 f) (eth_fwd st f 2048 Hl ltac:(lia)) ltac:(lia) Hhas).
+    destruct (loop_ip_transport k st (drop 14 f) ([] ++ [LEth]) (S n) Hwf Hk) as [st' [Hrun [Hip Htr]]].
     rewrite Hrun. cbn [app].
     assert (Hv : code_valid k [LEth; LIPv4; transport k] st' = true)
       by (apply code_valid_complete; destruct k; try reflexivity; contradiction).
     rewrite Hv. cbn [negb]. unfold expected_outcome, fields_of. rewrite El.
-    destruct k as [pf af| |]; [| |contradiction]; rewrite Hip, Htr; reflexivity.
+    destruct k as [pf af| |]; [| |contradiction]; rewrite Hip, Htr;
+      cbn [tcp_flags tcp_sport ip_src ip_ttl ic_type ic_code l3];
+      [destruct (negb (pf _)); reflexivity|reflexivity].
 Qed.
 
 Lemma process_complete_arp st f :
@@ -271,15 +285,9 @@ Proof.
   assert (H28 : 28 <= Zlength (drop 14 f)).
   { unfold arp_6_4 in Ha. repeat (apply andb_true_iff in Ha; destruct Ha as [Ha ?]). apply Z.leb_le in Ha. exact Ha. }
   destruct (length_ge_2 f ltac:(lia)) as [n En]. rewrite En.
-  cbn [decode_loop decode_layer]. rewrite (eth_fwd st f 2054 Hl ltac:(lia)). cbn [eth_next Z.eqb Pos.eqb].
-  destruct (nonempty_of_len (drop 14 f) ltac:(lia)) as [x [t Ex]]. rewrite Ex at 1. cbn [has_dec]. rewrite <- Ex.
-  rewrite (arp_fwd st _ Ha).
-  set (st' := set_arp st _).
-  assert (Hout : forall pl, (match pl with [] => (st', [] ++ [LEth] ++ [LARP], @None derr)
-                              | _ :: _ => if has_dec KArp LOther then decode_loop (has_dec KArp) n LOther st' pl (([] ++ [LEth]) ++ [LARP])
-                                          else (st', ([] ++ [LEth]) ++ [LARP], None) end) = (st', [LEth; LARP], None))
-    by (intros [|? ?]; reflexivity).
-  cbn [app] in Hout |- *. rewrite Hout.
+  rewrite (loop_step_fwd _ _ LEth st f [] st LARP (drop 14 f) (eth_fwd st f 2054 Hl ltac:(lia)) ltac:(lia) eq_refl).
+  rewrite (loop_last_fwd _ _ LARP _ _ _ _ _ _ (arp_fwd st _ Ha) eq_refl).
+  set (st' := set_arp st _). cbn [app].
   assert (Hv : code_valid KArp [LEth; LARP] st' = true).
   { apply code_valid_complete. subst st'. cbn. rewrite Zlength_take, Zlength_drop.
     apply Z.leb_le. lia. }
@@ -287,3 +295,364 @@ Proof.
   destruct (Z.ltb_spec (Zlength (drop 8 (drop 14 f))) 3) as [Hlt|_]; [rewrite Zlength_drop in Hlt; lia|].
   reflexivity.
 Qed.
+
+(* ------------------------------------------------------------------ the capture filters on well-formed frames *)
+Definition lp (raw : bool) (f : bytes) : bytes := if raw then f else drop 14 f.
+Definition link_ok (raw : bool) (f : bytes) : Prop := raw = true \/ 14 <= Zlength f.
+
+Lemma lp_len raw f : link_ok raw f -> Zlength (lp raw f) = Zlength f - nl raw.
+Proof. intros [->|H]; unfold lp, nl; [lia|]. destruct raw; [lia|]. rewrite Zlength_drop. lia. Qed.
+
+Lemma byte_at_lp raw f i : 0 <= i -> byte_at i (lp raw f) = byte_at (nl raw + i) f.
+Proof. intros. unfold lp, nl. destruct raw; [reflexivity|]. apply byte_at_drop; lia. Qed.
+
+Lemma ld8_p raw f i : link_ok raw f -> 0 <= i < Zlength (lp raw f) ->
+  ld8 (nl raw + i) f = Some (byte_at i (lp raw f)).
+Proof.
+  intros Hl Hi. rewrite lp_len in Hi by exact Hl. unfold ld8. rewrite byte_at_lp by lia.
+  assert (0 <= nl raw) by (unfold nl; destruct raw; lia).
+  destruct (Z.leb_spec 0 (nl raw + i)); [|lia]. destruct (Z.ltb_spec (nl raw + i) (Zlength f)); [|lia]. reflexivity.
+Qed.
+
+Lemma ld16_p raw f i : link_ok raw f -> 0 <= i -> i + 2 <= Zlength (lp raw f) ->
+  ld16 (nl raw + i) f = Some (be16 (byte_at i (lp raw f)) (byte_at (i + 1) (lp raw f))).
+Proof.
+  intros Hl Hi Hj. rewrite lp_len in Hj by exact Hl. unfold ld16. rewrite !byte_at_lp by lia.
+  assert (0 <= nl raw) by (unfold nl; destruct raw; lia).
+  destruct (Z.leb_spec 0 (nl raw + i)); [|lia]. destruct (Z.leb_spec (nl raw + i + 2) (Zlength f)); [|lia].
+  cbn [andb]. rewrite Z.add_assoc. reflexivity.
+Qed.
+
+Lemma ld32_p raw f i : link_ok raw f -> 0 <= i -> i + 4 <= Zlength (lp raw f) ->
+  ld32 (nl raw + i) f = Some (be32 (byte_at i (lp raw f)) (byte_at (i + 1) (lp raw f))
+                                   (byte_at (i + 2) (lp raw f)) (byte_at (i + 3) (lp raw f))).
+Proof.
+  intros Hl Hi Hj. rewrite lp_len in Hj by exact Hl. unfold ld32. rewrite !byte_at_lp by lia.
+  assert (0 <= nl raw) by (unfold nl; destruct raw; lia).
+  destruct (Z.leb_spec 0 (nl raw + i)); [|lia]. destruct (Z.leb_spec (nl raw + i + 4) (Zlength f)); [|lia].
+  cbn [andb]. rewrite !Z.add_assoc. reflexivity.
+Qed.
+
+Lemma byte_at_body p i : ip_hdr_ok p = true -> 0 <= i < Zlength (ip_body p) ->
+  byte_at i (ip_body p) = byte_at (ip_ihl p * 4 + i) p.
+Proof.
+  intros Hh Hi. destruct (ip_body_len p Hh) as [Hlen [Hb Hihl]]. rewrite Hlen in Hi. unfold ip_body.
+  rewrite byte_at_drop by lia. destruct (ip_total p <? Zlength p); [|reflexivity].
+  apply byte_at_take. lia.
+Qed.
+
+Lemma ev_and raw x y f : bpf_eval raw (BAnd x y) f = oand (bpf_eval raw x f) (fun _ => bpf_eval raw y f).
+Proof. reflexivity. Qed.
+Lemma ev_or raw x y f : bpf_eval raw (BOr x y) f = oor (bpf_eval raw x f) (fun _ => bpf_eval raw y f).
+Proof. reflexivity. Qed.
+
+(* the facts a filter program reads off an IPv4 frame *)
+Section OnIPv4.
+Variables (raw : bool) (f : bytes).
+Local Notation p := (lp raw f).
+Hypothesis Hlink : raw = true \/ eth_header 2048 f = true.
+Hypothesis Hh : ip_hdr_ok p = true.
+
+Lemma on_link_ok : link_ok raw f.
+Proof.
+  destruct Hlink as [->|H]; [left; reflexivity|right]. unfold eth_header in H.
+  apply andb_true_iff in H. destruct H as [H _]. apply Z.leb_le. exact H.
+Qed.
+
+Lemma on_len : 20 <= Zlength p /\ 5 <= ip_ihl p /\ ip_ihl p * 4 <= ip_total p <= Zlength p /\ 0 <= ip_ihl p < 16.
+Proof.
+  pose proof (ip_body_len p Hh) as [_ [Hb Hi]]. split; [lia|]. split; [lia|]. split; [lia|].
+  unfold ip_ihl. apply Z.mod_pos_bound. lia.
+Qed.
+
+Lemma on_etype ty : is_etype raw ty f = Some (ty =? 2048).
+Proof.
+  unfold is_etype. destruct Hlink as [->|H]; [reflexivity|]. destruct raw; [reflexivity|].
+  unfold eth_header in H. apply andb_true_iff in H. destruct H as [H1 H2].
+  apply Z.leb_le in H1. apply Z.eqb_eq in H2. unfold ld16.
+  destruct (Z.leb_spec (12 + 2) (Zlength f)); [|lia]. cbn [andb Z.leb obind]. change (12 + 1) with 13.
+  rewrite H2. rewrite Z.eqb_sym. reflexivity.
+Qed.
+
+Lemma on_proto : ld8 (nl raw + 9) f = Some (byte_at 9 p).
+Proof. apply ld8_p; [exact on_link_ok|]. pose proof on_len. lia. Qed.
+
+Lemma on_frag : ip_unfragmented p = true -> unfrag_off raw f = Some true.
+Proof.
+  intros Hu. unfold unfrag_off. rewrite (ld16_p raw f 6 on_link_ok) by (pose proof on_len; lia).
+  cbn [obind]. unfold ip_unfragmented in Hu. apply andb_true_iff in Hu. destruct Hu as [_ Hu].
+  change (6 + 1) with 7. rewrite Hu. reflexivity.
+Qed.
+
+Lemma on_xhl : xhl raw f = Some (4 * ip_ihl p).
+Proof.
+  unfold xhl. replace (nl raw) with (nl raw + 0) by lia.
+  rewrite (ld8_p raw f 0 on_link_ok) by (pose proof on_len; lia). reflexivity.
+Qed.
+
+Lemma on_src : ld32 (nl raw + 12) f = Some (src_addr p).
+Proof. rewrite (ld32_p raw f 12 on_link_ok) by (pose proof on_len; lia). reflexivity. Qed.
+
+Lemma on_body8 i : 0 <= i < Zlength (ip_body p) ->
+  ld8 (nl raw + 4 * ip_ihl p + i) f = Some (byte_at i (ip_body p)).
+Proof.
+  intros Hi. rewrite (byte_at_body p i Hh Hi). destruct (ip_body_len p Hh) as [Hlen [Hb _]].
+  replace (nl raw + 4 * ip_ihl p + i) with (nl raw + (ip_ihl p * 4 + i)) by lia.
+  apply ld8_p; [exact on_link_ok|]. pose proof on_len. lia.
+Qed.
+
+Lemma on_body16 : 2 <= Zlength (ip_body p) ->
+  ld16 (nl raw + 4 * ip_ihl p) f = Some (be16 (byte_at 0 (ip_body p)) (byte_at 1 (ip_body p))).
+Proof.
+  intros Hi. rewrite (byte_at_body p 0 Hh) by lia. rewrite (byte_at_body p 1 Hh) by lia.
+  destruct (ip_body_len p Hh) as [Hlen [Hb _]].
+  replace (nl raw + 4 * ip_ihl p) with (nl raw + (ip_ihl p * 4)) by lia.
+  rewrite (ld16_p raw f (ip_ihl p * 4) on_link_ok) by (pose proof on_len; lia).
+  rewrite Z.add_0_r. reflexivity.
+Qed.
+
+(* ---- primitives *)
+Lemma ev_tcp : byte_at 9 p = 6 -> bpf_eval raw (BProto PTcp) f = Some true.
+Proof. intros E. cbn [bpf_eval]. rewrite on_etype, on_proto, E. reflexivity. Qed.
+
+Lemma ev_icmp : byte_at 9 p = 1 -> bpf_eval raw (BProto PIcmp) f = Some true.
+Proof. intros E. cbn [bpf_eval]. rewrite on_etype, on_proto, E. reflexivity. Qed.
+
+Lemma ev_ipsrc n b : bpf_eval raw (BIpSrcNet n b) f = Some (in_net (src_addr p) n b).
+Proof. cbn [bpf_eval]. rewrite on_etype, on_src. reflexivity. Qed.
+
+Lemma ev_port a b : byte_at 9 p = 6 -> ip_unfragmented p = true -> 2 <= Zlength (ip_body p) ->
+  bpf_eval raw (BSrcPortRange a b) f =
+  Some ((a <=? be16 (byte_at 0 (ip_body p)) (byte_at 1 (ip_body p)))
+        && (be16 (byte_at 0 (ip_body p)) (byte_at 1 (ip_body p)) <=? b)).
+Proof.
+  intros E Hu Hb. cbn [bpf_eval]. rewrite (on_etype 2048), (on_etype 34525), on_proto, E, (on_frag Hu), on_xhl.
+  cbn [oand obind Z.eqb Pos.eqb transport3 orb]. rewrite on_body16 by exact Hb. cbn [obind].
+  destruct (_ && _); cbn [oor]; [reflexivity|].
+  destruct raw; reflexivity.
+Qed.
+
+Lemma ev_tcpbyte k v : byte_at 9 p = 6 -> ip_unfragmented p = true -> 0 <= k < Zlength (ip_body p) ->
+  bpf_eval raw (BTcpByteEq k v) f = Some (byte_at k (ip_body p) =? v).
+Proof.
+  intros E Hu Hk. cbn [bpf_eval]. rewrite on_etype, on_proto, E, (on_frag Hu), on_xhl.
+  cbn [oand obind Z.eqb Pos.eqb]. rewrite on_body8 by exact Hk. reflexivity.
+Qed.
+
+Lemma ev_icmpbyte k v : byte_at 9 p = 1 -> ip_unfragmented p = true -> 0 <= k < Zlength (ip_body p) ->
+  bpf_eval raw (BIcmpByteNe k v) f = Some (negb (byte_at k (ip_body p) =? v)).
+Proof.
+  intros E Hu Hk. cbn [bpf_eval]. rewrite on_etype, on_proto, E, (on_frag Hu), on_xhl.
+  cbn [oand obind Z.eqb Pos.eqb]. rewrite on_body8 by exact Hk. reflexivity.
+Qed.
+
+Lemma ev_ports ps : byte_at 9 p = 6 -> ip_unfragmented p = true -> 2 <= Zlength (ip_body p) ->
+  forall e, or_ports ps = Some e ->
+  bpf_eval raw e f = Some (existsb (fun ab => (fst ab <=? be16 (byte_at 0 (ip_body p)) (byte_at 1 (ip_body p)))
+                                              && (be16 (byte_at 0 (ip_body p)) (byte_at 1 (ip_body p)) <=? snd ab)) ps).
+Proof.
+  intros E Hu Hb. induction ps as [|[a b] ps IH]; intros e He; [discriminate|].
+  cbn [or_ports] in He. destruct (or_ports ps) as [r|] eqn:Er.
+  - injection He as <-. rewrite ev_or. cbn [existsb fst snd]. rewrite (ev_port a b E Hu Hb).
+    destruct (_ && _); cbn [oor orb]; [reflexivity|]. apply IH. reflexivity.
+  - injection He as <-. rewrite (ev_port a b E Hu Hb). cbn [existsb fst snd].
+    destruct ps as [|[? ?] ?]; [cbn [existsb]; rewrite orb_false_r; reflexivity|].
+    cbn [or_ports] in Er. destruct (or_ports ps); discriminate.
+Qed.
+
+(* ---- the builders *)
+Lemma ev_tcp_filter r : byte_at 9 p = 6 -> ip_unfragmented p = true -> 2 <= Zlength (ip_body p) ->
+  bpf_eval raw (tcp_filter r) f =
+  Some (in_subnet r (src_addr p) && in_ports r (be16 (byte_at 0 (ip_body p)) (byte_at 1 (ip_body p)))).
+Proof.
+  intros E Hu Hb. unfold tcp_filter, in_subnet, in_ports.
+  assert (H1 : bpf_eval raw (and_opt (BProto PTcp) (option_map (fun n => BIpSrcNet (fst n) (snd n)) (r_subnet r))) f
+               = Some (match r_subnet r with None => true | Some n => in_net (src_addr p) (fst n) (snd n) end)).
+  { destruct (r_subnet r) as [n|]; cbn [option_map and_opt]; [|exact (ev_tcp E)].
+    rewrite ev_and, (ev_tcp E). cbn [oand]. apply ev_ipsrc. }
+  destruct (r_ports r) as [|ab ps] eqn:Ep.
+  - cbn [or_ports and_opt]. rewrite H1. rewrite andb_true_r. reflexivity.
+  - destruct (or_ports (ab :: ps)) as [e|] eqn:Eo.
+    + cbn [and_opt]. rewrite ev_and, H1.
+      destruct (match r_subnet r with None => true | Some n => in_net (src_addr p) (fst n) (snd n) end); cbn [oand andb];
+        [apply (ev_ports (ab :: ps) E Hu Hb e Eo)|reflexivity].
+    + exfalso. cbn [or_ports] in Eo. destruct ab. destruct (or_ports ps); discriminate.
+Qed.
+
+Lemma ev_synack_filter r : byte_at 9 p = 6 -> ip_unfragmented p = true -> 14 <= Zlength (ip_body p) ->
+  bpf_eval raw (synack_filter r) f =
+  Some (in_subnet r (src_addr p) && in_ports r (be16 (byte_at 0 (ip_body p)) (byte_at 1 (ip_body p)))
+        && (byte_at 13 (ip_body p) =? 18)).
+Proof.
+  intros E Hu Hb. unfold synack_filter. rewrite ev_and, (ev_tcp_filter r E Hu) by lia.
+  destruct (_ && _); cbn [oand andb]; [|reflexivity]. apply ev_tcpbyte; [exact E|exact Hu|lia].
+Qed.
+
+Lemma ev_icmp_filter r : byte_at 9 p = 1 -> ip_unfragmented p = true -> 1 <= Zlength (ip_body p) ->
+  bpf_eval raw (icmp_filter r) f = Some (negb (byte_at 0 (ip_body p) =? 8) && in_subnet r (src_addr p)).
+Proof.
+  intros E Hu Hb. unfold icmp_filter, in_subnet.
+  assert (H1 : bpf_eval raw (BAnd (BProto PIcmp) (BIcmpByteNe 0 8)) f = Some (negb (byte_at 0 (ip_body p) =? 8))).
+  { rewrite ev_and, (ev_icmp E). cbn [oand]. apply ev_icmpbyte; [exact E|exact Hu|lia]. }
+  destruct (r_subnet r) as [n|]; cbn [option_map and_opt].
+  - rewrite ev_and, H1. destruct (negb _); cbn [oand andb]; [apply ev_ipsrc|reflexivity].
+  - rewrite H1, andb_true_r. reflexivity.
+Qed.
+
+End OnIPv4.
+
+(* ------------------------------------------------------------------ reported <-> reply shape *)
+Lemma flags512_in fl : 0 <= fl < 512 -> In fl flags512.
+Proof.
+  intros H. unfold flags512. apply in_map_iff. exists (Z.to_nat fl). split; [apply Z2Nat.id; lia|].
+  apply in_seq. lia.
+Qed.
+
+Lemma wf_bytes_body p : wf_bytes p = true -> wf_bytes (ip_body p) = true.
+Proof.
+  intros H. unfold ip_body, wf_bytes in *. apply forallb_drop. destruct (_ <? _); [apply forallb_take|]; exact H.
+Qed.
+
+Lemma flags9_range s : wf_bytes s = true -> 0 <= flags9 s < 512 /\ flags9 s mod 256 = byte_at 13 s.
+Proof.
+  intros H. unfold flags9. pose proof (byte_at_range s 13 H). pose proof (Z.mod_pos_bound (byte_at 12 s) 2 ltac:(lia)).
+  split; [lia|]. rewrite Z.add_comm, Z_mod_plus_full. apply Z.mod_small. lia.
+Qed.
+
+Lemma wf_unfrag_ip raw f : wf_unfrag raw f = true -> (raw = true \/ eth_header 2048 f = true) ->
+  wf_ip (lp raw f) = true /\ wf_bytes (lp raw f) = true.
+Proof.
+  unfold wf_unfrag, lp. intros H Hl. apply andb_true_iff in H. destruct H as [Hb H].
+  destruct raw; [split; assumption|]. destruct Hl as [Hl|Hl]; [discriminate|]. rewrite Hl in H.
+  split; [exact H|]. apply forallb_drop. exact Hb.
+Qed.
+
+(* no record unless the frame is IPv4 carrying the scanned protocol *)
+Lemma no_record_ip k raw st f proto :
+  (match k with KTcp _ _ => proto = 6 | KIcmp => proto = 1 | KArp => False end) ->
+  (raw || eth_header 2048 f) && (byte_at 9 (lp raw f) =? proto) = false ->
+  is_record (snd (process k raw (code_valid k) st f)) = false.
+Proof.
+  intros Hk Hc. destruct (process k raw (code_valid k) st f) as [st' o] eqn:E. destruct o; try reflexivity.
+  exfalso. apply (process_record k (code_valid k) (code_valid_sound k)) in E. destruct E as [Hch _].
+  destruct k as [pf af| |]; [| |contradiction]; subst proto; unfold has_chain, ipv4_header in Hch;
+    repeat match goal with Hx : _ && _ = true |- _ => apply andb_true_iff in Hx; destruct Hx end;
+    unfold lp in Hc; cbn [l3] in *;
+    match goal with Ha : (raw || _) = true, Hb : (byte_at 9 _ =? _) = true |- _ => rewrite Ha, Hb in Hc end;
+    discriminate.
+Qed.
+
+Lemma is_record_expected k raw f :
+  is_record (expected_outcome k raw f) =
+  match k with KTcp pf _ => pf (flags9 (ip_body (l3 k raw f))) | _ => true end.
+Proof. destruct k as [pf af| |]; cbn; [destruct (pf _); reflexivity|reflexivity|reflexivity]. Qed.
+
+Lemma bpf_sem_some raw e f b : bpf_eval raw e f = Some b -> bpf_sem raw e f = b.
+Proof. unfold bpf_sem. intros ->. destruct b; reflexivity. Qed.
+
+Opaque forallb.
+Theorem reported_iff w c vpn r st f :
+  cmd_wiring_ok w = true -> class_of_cmd (w_cmd w) = Some c ->
+  wf_unfrag (source_raw w vpn) f = true ->
+  reported w vpn r st f = reply_shape c (source_raw w vpn) r f.
+Proof.
+  intros Hok Hc.
+  unfold cmd_wiring_ok in Hok. rewrite Hc in Hok. unfold reported, source_raw, method_raw.
+  destruct c; destruct (w_method w) as [pf af| | |] eqn:Em; try discriminate;
+    destruct (w_filter w) eqn:Ef; try discriminate;
+    unfold method_gets_vpn in *;
+    repeat match goal with Hx : _ && _ = true |- _ => apply andb_true_iff in Hx; destruct Hx end;
+    repeat match goal with Hx : ?b = true |- context [?b] => rewrite Hx end;
+    cbn [andb kind_of_method filter_of]; intros Hwf.
+  - (* tcp scans with TrueFilter *)
+    set (raw := vpn) in *. fold (lp raw f).
+    destruct ((raw || eth_header 2048 f) && (byte_at 9 (lp raw f) =? 6)) eqn:C0.
+    + apply andb_true_iff in C0. destruct C0 as [Hl E]. apply Z.eqb_eq in E. apply orb_true_iff in Hl.
+      destruct (wf_unfrag_ip raw f Hwf Hl) as [Hip Hby].
+      destruct (wf_ip_parts _ Hip) as [Hh [_ [Hu [Ht _]]]]. destruct (Ht E) as [Hth _].
+      assert (H20 : 20 <= Zlength (ip_body (lp raw f))).
+      { unfold tcp_header in Hth. repeat (apply andb_true_iff in Hth; destruct Hth as [Hth ?]). apply Z.leb_le. exact Hth. }
+      rewrite (process_complete_ip (KTcp pf af) raw st f E Hl Hip), is_record_expected. cbn [l3]. fold (lp raw f).
+      rewrite (bpf_sem_some _ _ _ _ (ev_tcp_filter raw f Hl Hh r E Hu ltac:(lia))).
+      destruct (flags9_range _ (wf_bytes_body _ Hby)) as [Hfr _].
+      assert (Hpf : pf (flags9 (ip_body (lp raw f))) = true).
+      { match goal with Hx : forallb pf flags512 = true |- _ => rewrite forallb_forall in Hx; apply Hx end.
+        apply flags512_in. exact Hfr. }
+      rewrite Hpf, andb_true_r. unfold reply_shape. fold (lp raw f).
+      rewrite E, (proj2 (orb_true_iff _ _) Hl). reflexivity.
+    + rewrite (no_record_ip (KTcp pf af) raw st f 6 eq_refl C0), andb_false_r.
+      unfold reply_shape. fold (lp raw f). rewrite C0. reflexivity.
+  - (* SYN scan *)
+    set (raw := vpn) in *. fold (lp raw f).
+    destruct ((raw || eth_header 2048 f) && (byte_at 9 (lp raw f) =? 6)) eqn:C0.
+    + apply andb_true_iff in C0. destruct C0 as [Hl E]. apply Z.eqb_eq in E. apply orb_true_iff in Hl.
+      destruct (wf_unfrag_ip raw f Hwf Hl) as [Hip Hby].
+      destruct (wf_ip_parts _ Hip) as [Hh [_ [Hu [Ht _]]]]. destruct (Ht E) as [Hth _].
+      assert (H20 : 20 <= Zlength (ip_body (lp raw f))).
+      { unfold tcp_header in Hth. repeat (apply andb_true_iff in Hth; destruct Hth as [Hth ?]). apply Z.leb_le. exact Hth. }
+      rewrite (process_complete_ip (KTcp pf af) raw st f E Hl Hip), is_record_expected. cbn [l3]. fold (lp raw f).
+      rewrite (bpf_sem_some _ _ _ _ (ev_synack_filter raw f Hl Hh r E Hu ltac:(lia))).
+      destruct (flags9_range _ (wf_bytes_body _ Hby)) as [Hfr Hm].
+      match goal with Hx : forallb _ flags512 = true |- _ =>
+        rewrite forallb_forall in Hx; pose proof (Hx _ (flags512_in _ Hfr)) as Hsyn end.
+      cbv beta in Hsyn. rewrite Hm in Hsyn. apply eqb_prop in Hsyn.
+      unfold reply_shape. fold (lp raw f). rewrite <- Hsyn.
+      rewrite E, (proj2 (orb_true_iff _ _) Hl); cbn [andb Z.eqb Pos.eqb];
+        destruct (in_subnet _ _), (in_ports _ _), (byte_at 13 _ =? 18), (pf _); reflexivity.
+    + rewrite (no_record_ip (KTcp pf af) raw st f 6 eq_refl C0), andb_false_r.
+      unfold reply_shape. fold (lp raw f). rewrite C0. reflexivity.
+  - (* udp scan: ICMP *)
+    set (raw := vpn) in *. fold (lp raw f).
+    destruct ((raw || eth_header 2048 f) && (byte_at 9 (lp raw f) =? 1)) eqn:C0.
+    + apply andb_true_iff in C0. destruct C0 as [Hl E]. apply Z.eqb_eq in E. apply orb_true_iff in Hl.
+      destruct (wf_unfrag_ip raw f Hwf Hl) as [Hip Hby].
+      destruct (wf_ip_parts _ Hip) as [Hh [_ [Hu [_ Hi]]]]. pose proof (Hi E) as Hth.
+      assert (H8 : 8 <= Zlength (ip_body (lp raw f))) by (apply Z.leb_le; exact Hth).
+      rewrite (process_complete_ip KIcmp raw st f E Hl Hip). cbn [expected_outcome is_record].
+      rewrite (bpf_sem_some _ _ _ _ (ev_icmp_filter raw f Hl Hh r E Hu ltac:(lia))).
+      rewrite andb_true_r. unfold reply_shape. fold (lp raw f).
+      rewrite E, (proj2 (orb_true_iff _ _) Hl). reflexivity.
+    + rewrite (no_record_ip KIcmp raw st f 1 eq_refl C0), andb_false_r.
+      unfold reply_shape. fold (lp raw f). rewrite C0. reflexivity.
+  - (* icmp scan *)
+    set (raw := vpn) in *. fold (lp raw f).
+    destruct ((raw || eth_header 2048 f) && (byte_at 9 (lp raw f) =? 1)) eqn:C0.
+    + apply andb_true_iff in C0. destruct C0 as [Hl E]. apply Z.eqb_eq in E. apply orb_true_iff in Hl.
+      destruct (wf_unfrag_ip raw f Hwf Hl) as [Hip Hby].
+      destruct (wf_ip_parts _ Hip) as [Hh [_ [Hu [_ Hi]]]]. pose proof (Hi E) as Hth.
+      assert (H8 : 8 <= Zlength (ip_body (lp raw f))) by (apply Z.leb_le; exact Hth).
+      rewrite (process_complete_ip KIcmp raw st f E Hl Hip). cbn [expected_outcome is_record].
+      rewrite (bpf_sem_some _ _ _ _ (ev_icmp_filter raw f Hl Hh r E Hu ltac:(lia))).
+      rewrite andb_true_r. unfold reply_shape. fold (lp raw f).
+      rewrite E, (proj2 (orb_true_iff _ _) Hl). reflexivity.
+    + rewrite (no_record_ip KIcmp raw st f 1 eq_refl C0), andb_false_r.
+      unfold reply_shape. fold (lp raw f). rewrite C0. reflexivity.
+  - (* arp *)
+    match goal with Hx : negb (w_vpn_source w) = true |- _ => apply negb_true_iff in Hx; rewrite Hx in * end.
+    cbn [andb method_gets_vpn] in *. unfold reply_shape. cbn [negb andb].
+    destruct (eth_header 2054 f) eqn:C0.
+    + assert (H14 : 14 <= Zlength f) by (unfold eth_header in C0; apply andb_true_iff in C0; destruct C0 as [C0 _]; apply Z.leb_le; exact C0).
+      assert (Hn : eth_header 2048 f = false).
+      { unfold eth_header in *. apply andb_true_iff in C0. destruct C0 as [_ C0]. apply Z.eqb_eq in C0. rewrite C0.
+        apply andb_false_r. }
+      unfold wf_unfrag in Hwf. rewrite Hn, C0 in Hwf. apply andb_true_iff in Hwf. destruct Hwf as [_ Ha].
+      rewrite (process_complete_arp st f C0 Ha). cbn [is_record]. rewrite andb_true_r.
+      assert (H28 : 28 <= Zlength (drop 14 f)).
+      { unfold arp_6_4 in Ha. repeat (apply andb_true_iff in Ha; destruct Ha as [Ha ?]). apply Z.leb_le. exact Ha. }
+      rewrite Zlength_drop in H28.
+      assert (Het : is_etype false 2054 f = Some true).
+      { unfold is_etype. unfold eth_header in C0. apply andb_true_iff in C0. destruct C0 as [_ C0].
+        assert (Hld : ld16 12 f = Some (be16 (byte_at 12 f) (byte_at 13 f))).
+        { unfold ld16. destruct (Z.leb_spec (12 + 2) (Zlength f)); [|lia]. reflexivity. }
+        rewrite Hld. cbn [obind]. rewrite C0. reflexivity. }
+      unfold arp_filter, in_subnet. destruct (r_subnet r) as [n|].
+      * apply bpf_sem_some. cbn [bpf_eval]. rewrite Het. cbn [oand nl]. unfold ld32.
+        destruct (Z.leb_spec (14 + 14 + 4) (Zlength f)); [|lia]. cbn [andb Z.leb Z.add Pos.add Pos.succ obind].
+        unfold src_addr. rewrite !byte_at_drop by lia. reflexivity.
+      * apply bpf_sem_some. cbn [bpf_eval]. exact Het.
+    + cbn [andb]. rewrite andb_false_iff. right.
+      destruct (process KArp false (code_valid KArp) st f) as [st' o] eqn:E. destruct o; try reflexivity.
+      exfalso. apply (process_record KArp (code_valid KArp) (code_valid_sound KArp)) in E. destruct E as [Hch _].
+      unfold has_chain in Hch. rewrite C0 in Hch. discriminate.
+Qed.
+Transparent forallb.
